@@ -405,6 +405,12 @@ struct url : url_base {
   bool set_host_or_hostname(std::string_view input);
 
   /**
+   * set_port() proper. When check_max_length is false the caller is
+   * responsible for the maximum-length check (see set_host_or_hostname).
+   */
+  bool set_port_impl(std::string_view input, bool check_max_length);
+
+  /**
    * Return true on success.
    * @see https://url.spec.whatwg.org/#concept-ipv4-parser
    */
